@@ -60,6 +60,34 @@ func bwSimple(g map[string][]string) bool {
 }
 
 func TestVerifBounded_RefreshMembership(t *testing.T) {
+	bwEnumerate(t, "members", bwMembers)
+}
+
+// bwResolved: the paths of the resolved journal, by both of its representations (map keys and include order); the
+// reference search, rename and the list builders walk one or the other.
+func bwResolved(w *Workspace) string {
+	if w.resolved == nil {
+		return "<nil>"
+	}
+	var ks, os []string
+	for k := range w.resolved.Files {
+		ks = append(ks, filepath.Base(k))
+	}
+	for _, k := range w.resolved.FileOrder {
+		os = append(os, filepath.Base(k))
+	}
+	sort.Strings(ks)
+	sort.Strings(os)
+	return "Files{" + strings.Join(ks, ",") + "} FileOrder{" + strings.Join(os, ",") + "}"
+}
+
+// C09 / C12: after an include change the resolved journal holds exactly the files of the new include tree, in both
+// representations (a detached file that stays in Files is still searched by references and rename).
+func TestVerifBounded_RefreshResolved(t *testing.T) {
+	bwEnumerate(t, "resolved journal", bwResolved)
+}
+
+func bwEnumerate(t *testing.T, what string, view func(*Workspace) string) {
 	names := []string{"main", "a", "b", "c"}
 	others := []string{"a", "b", "c"}
 	var subsets [][]string
@@ -129,8 +157,8 @@ func TestVerifBounded_RefreshMembership(t *testing.T) {
 					continue
 				}
 				cases++
-				if got, want := bwMembers(w), bwMembers(fresh); got != want {
-					fmt.Printf("BOUNDED-FAIL graph %v, %s's includes replaced by %v: members after the update [%s], fresh workspace [%s]\n", g, victim, newIncs, got, want)
+				if got, want := view(w), view(fresh); got != want {
+					fmt.Printf("BOUNDED-FAIL graph %v, %s's includes replaced by %v: %s after the update [%s], fresh workspace [%s]\n", g, victim, newIncs, what, got, want)
 					return
 				}
 			}
